@@ -39,6 +39,7 @@ func c18Decl(layout int, subOpt bool, defaultOpts bool, pano bool, ignoreUnknown
 		{Field: "PW", Long: "pw", Type: decl.TPWords},
 		{Field: "UpperShort", Short: "Z", Type: decl.TBool}, // sorts before every lower-case short name, after every long name
 		{Field: "VeeMore", Long: "vee-more", Type: decl.TBool}, // --vee, typed completely, is still a prefix of this one
+		{Field: "CI", Long: "ci", Type: decl.TWordsCI},         // its completer answers in lower case whatever the case typed
 	}}
 	deep := &decl.Cmd{Field: "Deep", Name: "deep", Opts: []*decl.Opt{{Field: "Depth", Long: "depth", Type: decl.TInt}}}
 	add := &decl.Cmd{Field: "Add", Name: "add", Aliases: []string{"a2"}, SubOptional: true, Cmds: []*decl.Cmd{deep}, Opts: []*decl.Opt{
@@ -82,13 +83,16 @@ func c18Decl(layout int, subOpt bool, defaultOpts bool, pano bool, ignoreUnknown
 
 var c18Units = [][]string{
 	{"-v"}, {"--verbose"}, {"-f"}, {"-f", "alpha"}, {"--file=alpha"}, {"-fbeta"}, {"-vf"}, {"-o"}, {"--opt=x"}, {"-n", "5"}, {"--num"},
-	{"add"}, {"a2"}, {"rm"}, {"deep"}, {"adx"}, {"zz"}, {"alpha"}, {"7"}, {"--"}, {"--force"}, {"--from", "gamma"}, {"-x"}, {"-ü", "gamma"}, {"-ü"}, {"-vü"}, {"--color", "on"}, {"-c"}, {"--pw"},
+	{"add"}, {"a2"}, {"rm"}, {"deep"}, {"adx"}, {"zz"}, {"alpha"}, {"7"}, {"--"}, {"--force"}, {"--from", "gamma"}, {"-x"}, {"-ü", "gamma"}, {"-ü"}, {"-vü"}, {"--color", "on"}, {"-c"}, {"--pw"}, {"--ci"},
 }
 
-var c18Last = []string{"", "-", "--", "--v", "--ve", "--vee", "--f", "--x", "--s", "-v", "-f", "-fal", "-f=al", "--file=al", "--file=", "--from=", "--from=a", "--num=", "al", "a", "ad", "r", "zz", "g", "d", "h", "--de", "-o", "--opt=", "be", "-ü", "-üal", "-ü=g", "--u", "--pw=al", "--c"}
+var c18Last = []string{"", "-", "--", "--v", "--ve", "--vee", "--f", "--x", "--s", "-v", "-f", "-fal", "-f=al", "--file=al", "--file=", "--from=", "--from=a", "--num=", "al", "a", "ad", "r", "zz", "g", "d", "h", "--de", "-o", "--opt=", "be", "-ü", "-üal", "-ü=g", "--u", "--pw=al", "--c", "DE", "--ci=DEL"}
 
 func wordsMatching(list []string, prefix string) []string {
 	var out []string
+	if len(list) > 0 && list[0] == "\x00ci" {
+		list, prefix = list[1:], strings.ToLower(prefix) // a completer that matches case-insensitively
+	}
 	for _, w := range list {
 		if strings.HasPrefix(w, prefix) {
 			out = append(out, w)
@@ -111,6 +115,8 @@ func completerWords(t *decl.Type) ([]string, bool) {
 		return decl.WordList, true
 	case decl.TWords2.RT:
 		return decl.WordList2, true
+	case decl.TWordsCI.RT:
+		return append([]string{"\x00ci"}, decl.WordListCI...), true
 	}
 	return nil, false
 }
@@ -132,7 +138,7 @@ func init() {
 			c.Skip()
 		}
 		maxDepth := 3
-		if !c.Thorough && (defOpts || layout == 1 || layout == 3) {
+		if !c.Thorough && (defOpts || subOpt || layout == 1 || layout == 3) {
 			maxDepth = 2 // quick: the HelpFlag variants only differ by the built-in help options; two of the five layouts stay at 2
 		}
 		if c.Thorough && layout == 2 && !defOpts {
@@ -403,9 +409,9 @@ func init() {
 		Level:      "model_checking",
 		ShardDepth: 7,
 		Body:       body,
-		Rule: "declaration with Completer-typed options (short+long, long-only, a multi-byte short name, two different word lists), an optional-argument option, hidden long and hidden short-only options, hidden command, short-only options in lower and upper case, commands sharing a prefix (add, adx), alias, sub-subcommand; " +
-			"positionals of add in 5 layouts (none, [Words], [Words,int], [int,Words], [Words, ...Words2]) x subcommands-optional on the parser yes/no x HelpFlag yes/no (+ IgnoreUnknown, + PassAfterNonOption on the two layouts whose positionals complete differently: after the first plain word only positional values are asserted) x {struct tags, API build where a group of the parser is added after the commands and after a first completion and parse on the half-built parser}; every valid prefix (the CLM in prefix mode accepts it) of <= 3 units (quick: <= 2 on the HelpFlag variants and on two of the five positional layouts; thorough: <= 4 on the [Words,int] layout without HelpFlag) over 29 units " +
-			"(flags, separate / attached / '=' arguments, pending option, cluster ending in a pending option, optional-argument option, command words and alias, plain words, numbers, terminator) x 36 partial last words; " +
+		Rule: "declaration with Completer-typed options (short+long, long-only, a multi-byte short name, two different word lists, a completer that matches case-insensitively and answers in lower case), an optional-argument option, hidden long and hidden short-only options, hidden command, short-only options in lower and upper case, commands sharing a prefix (add, adx), alias, sub-subcommand; " +
+			"positionals of add in 5 layouts (none, [Words], [Words,int], [int,Words], [Words, ...Words2]) x subcommands-optional on the parser yes/no x HelpFlag yes/no (+ IgnoreUnknown, + PassAfterNonOption on the two layouts whose positionals complete differently: after the first plain word only positional values are asserted) x {struct tags, API build where a group of the parser is added after the commands and after a first completion and parse on the half-built parser}; every valid prefix (the CLM in prefix mode accepts it) of <= 3 units (quick: <= 2 on the HelpFlag variants, with optional subcommands and on two of the five positional layouts; thorough: <= 4 on the [Words,int] layout without HelpFlag) over 30 units " +
+			"(flags, separate / attached / '=' arguments, pending option, cluster ending in a pending option, optional-argument option, command words and alias, plain words, numbers, terminator) x 38 partial last words; " +
 			"oracle from the CLM context after the prefix: (a) '-' / '--p' => exactly the non-hidden options in scope with that prefix, (b) value position of a Completer-typed option or positional => exactly its words re-attached to the spelling, " +
 			"(c) otherwise the non-hidden subcommands with that prefix, (d) sorted, (e) every offered option/command re-parsed by the real parser at that position is not unknown, (f) the real parser's Active chain on the typed words equals the model's",
 		Assumptions:  []string{"left unasserted: option names after --, the echo of a complete short flag, value positions whose type has no completions, option and command names after the first plain word under PassAfterNonOption"},
